@@ -14,7 +14,7 @@ CLAIMS = {
                 note="Trusts catch_unwind and process exit status as observations.",
                 technique="runtime monitoring: history checking against a sequential model, child-process abort detection"),
     "C06": dict(engine="direct",
-                text="Held on N generated DeriveInput items (all data shapes, generics, hostile #[darling ...] bodies on container / variant / field positions) x 6 derives, each run in-process under catch_unwind with its output parsed as items: exactly one impl of the trait or >=1 compile_error!, never both, never nothing, never a panic.",
+                text="Held on N generated DeriveInput items (all data shapes, generics, hostile #[darling ...] bodies on container / variant / field positions) x 6 derives, each run in-process under catch_unwind with its output parsed as items: exactly one impl of the trait or >=1 compile_error!, never both, never nothing, never a panic. A second part plants every malformed option value (wrong literal kind / meta form / missing value) alone in clean declarations: the answer is an impl or diagnostics of which one is spanned inside the option's own tokens.",
                 note="The derive functions are called through darling_core::derive::*, which is all the proc-macro shim does after parsing.",
                 technique="runtime monitoring: grammar-based hostile input generation, panic and output-shape monitor around every derive call"),
     "C10": dict(engine="direct",
